@@ -37,7 +37,7 @@ from __future__ import annotations
 import ast
 from typing import Dict, List, Optional, Tuple
 
-from engines import c1819facts as facts, pyfacts as pf, strparts
+from engines import c1819facts as facts, linform, pyfacts as pf, strparts
 from engines.common import AnalysisError, Ctx
 from rules.c17 import RecordingSite, call_pred, _is_attr, _nested_defs, _node, _stmts, _inside
 
@@ -76,14 +76,140 @@ def _pair(ctx: Ctx, ret: ast.Return, where: str) -> Tuple[ast.AST, ast.AST]:
 
 
 def _get_path_arg(e: ast.AST, r: str, fn: Optional[pf.FuncDef] = None) -> Optional[str]:
-    """`<r>._get_path(<name or dotted name>)` -> its source text (a local alias of the call is followed)."""
-    if isinstance(e, ast.Name) and fn is not None:
-        d = pf.single_def(fn, e.id)
-        if isinstance(d, ast.expr):
-            e = d
+    """`<r>._get_path(<name or dotted name>)` -> its source text (local aliases of the call and of its argument's value are followed; the directory
+    variables themselves are parameters / closure variables of the copy helper and stay names)."""
+    if fn is not None:
+        e = facts.expand_locals_except(fn, e, stop={r})
     if isinstance(e, ast.Call) and isinstance(e.func, ast.Attribute) and e.func.attr == '_get_path' and isinstance(e.func.value, ast.Name) \
-            and e.func.value.id == r and len(e.args) == 1 and not e.keywords and pf.dotted(e.args[0]) is not None:
-        return pf.dotted(e.args[0])
+            and e.func.value.id == r and len(e.args) + len(e.keywords) == 1 and all(k.arg is not None for k in e.keywords):
+        a0 = e.args[0] if e.args else e.keywords[0].value
+        if pf.dotted(a0) is not None:
+            return pf.dotted(a0)
+    return None
+
+
+def _type_leafs(e: ast.AST) -> Optional[set]:
+    if isinstance(e, ast.Tuple):
+        out: set = set()
+        for x in e.elts:
+            r = _type_leafs(x)
+            if r is None:
+                return None
+            out |= r
+        return out
+    d = pf.dotted(e)
+    return {d.split('.')[-1]} if d is not None else None
+
+
+def _class_value(t: ast.AST, r: str, is_input: bool) -> Optional[bool]:
+    """Three-valued value of a test for a resource `r` that is (is not) an InputResourceFile; the resources that reach the copy helpers are input files,
+    job resource files and python results.  Anything that is not an isinstance test of `r` is unknown."""
+    if isinstance(t, ast.UnaryOp) and isinstance(t.op, ast.Not):
+        v = _class_value(t.operand, r, is_input)
+        return None if v is None else not v
+    if isinstance(t, ast.BoolOp):
+        vs = [_class_value(x, r, is_input) for x in t.values]
+        if isinstance(t.op, ast.And):
+            return False if any(v is False for v in vs) else (True if all(v is True for v in vs) else None)
+        return True if any(v is True for v in vs) else (False if all(v is False for v in vs) else None)
+    if isinstance(t, ast.Call) and pf.dotted(t.func) == 'isinstance' and len(t.args) == 2 and not t.keywords and isinstance(t.args[0], ast.Name) and t.args[0].id == r:
+        names = _type_leafs(t.args[1])
+        if not names:
+            return None
+        if names == {'InputResourceFile'}:
+            return is_input
+        if 'InputResourceFile' in names:
+            return True if is_input else None
+        if names <= {'JobResourceFile', 'PythonResult'}:
+            return False if is_input else None
+    return None
+
+
+def _classified_returns(ctx: Ctx, f: pf.FuncDef, where: str) -> Dict[str, List[Tuple[ast.Return, List[pf.Node]]]]:
+    """The returns of a copy helper `f(r)` by the class of resource that can reach them: {'input': [...], 'job': [...]}, each with the CFG nodes of one
+    path to it.  All acyclic entry -> return paths are enumerated; a path is feasible for a class when no isinstance test of `r` on it (Boolean locals
+    expanded, not / and / or evaluated three-valued) contradicts the edge taken.  Nested ifs, guard clauses and elif chains are the same thing here."""
+    from rules.c17 import _expand_flags
+    r = f.args.args[0].arg
+    ctx.need(len(pf.assignments(f).get(r, [])) == 1, f'{where}: the parameter `{r}` is re-assigned')
+    g = pf.cfg(f)
+    paths: List[List[Tuple[pf.Node, str]]] = []
+
+    def dfs(n: pf.Node, acc: List[Tuple[pf.Node, str]], seen: set) -> None:
+        ctx.need(len(paths) <= 64, f'{where}: too many paths')
+        if n.kind == 'return':
+            paths.append(acc + [(n, '')])
+            return
+        for nxt, lab in n.succ:
+            if lab == 'exc' or nxt is g.raise_exit or nxt.kind == 'raise' or nxt is g.exit:
+                continue
+            ctx.need(nxt.id not in seen, f'{where}: loop in the copy helper (not analysed)')
+            dfs(nxt, acc + [(n, lab)], seen | {nxt.id})
+    dfs(g.entry, [], {g.entry.id})
+    out: Dict[str, List[Tuple[ast.Return, List[pf.Node]]]] = {'input': [], 'job': []}
+    for path in paths:
+        for cls_, is_input in (('input', True), ('job', False)):
+            ok = True
+            for n, lab in path:
+                tst = n.ast if (n.kind == 'test' and lab in ('T', 'F')) else (n.ast.test if (n.kind == 'stmt' and isinstance(n.ast, ast.Assert)) else None)
+                if tst is None:
+                    continue
+                v = _class_value(_expand_flags(f, tst, {r}), r, is_input)
+                want = (lab == 'T') if n.kind == 'test' else True
+                if v is not None and v != want:
+                    ok = False
+            if ok:
+                out[cls_].append((path[-1][0].ast, [n for n, _ in path]))  # type: ignore[arg-type]
+    return out
+
+
+def _one_return(ctx: Ctx, rets: List[Tuple[ast.Return, List[pf.Node]]], where: str, what: str) -> Tuple[ast.Return, List[pf.Node]]:
+    distinct = []
+    for r_, p_ in rets:
+        if not any(r_ is d for d, _ in distinct):
+            distinct.append((r_, p_))
+    ctx.need(len(distinct) == 1, f'{where}: expected exactly one return for {what}, found {len(distinct)}')
+    return distinct[0]
+
+
+def _same_value(f: pf.FuncDef, a: ast.AST, b: ast.AST) -> Optional[bool]:
+    """Do the two expressions of function f denote the same VALUE?  Single-definition locals are replaced by their definition as long as that definition is
+    pure (names, attributes, constants, string building, `_get_path` of such - no other call, whose two evaluations could differ); a local bound to an impure
+    expression (`uuid4()`) stays a name: one evaluation, one value.  True / False by the resulting text; None when an expression itself contains an impure call."""
+    import copy
+    ra, rb = pf.resolve_expr(f, a, depth=4), pf.resolve_expr(f, b, depth=4)
+    if ra is rb:
+        return True
+    asg = pf.assignments(f)
+    params = {x.arg for x in f.args.posonlyargs + f.args.args + f.args.kwonlyargs}
+
+    def pure(e: ast.AST) -> bool:
+        for x in ast.walk(e):
+            if isinstance(x, ast.Call) and not (isinstance(x.func, ast.Attribute) and x.func.attr == '_get_path') and not (isinstance(x.func, ast.Name) and x.func.id == 'str'):
+                return False
+            if isinstance(x, (ast.Await, ast.Yield, ast.YieldFrom, ast.Lambda, ast.NamedExpr)):
+                return False
+            if isinstance(x, ast.Name) and len(asg.get(x.id, [])) > 1:
+                return False
+        return True
+
+    def expand(e: ast.AST, depth: int = 4) -> ast.AST:
+        class _S(ast.NodeTransformer):
+            def visit_Name(self, node: ast.Name):
+                if isinstance(node.ctx, ast.Load) and node.id not in params and depth > 0:
+                    dd = pf.single_def(f, node.id)
+                    if isinstance(dd, ast.expr):
+                        x = expand(dd, depth - 1)
+                        if pure(x):
+                            return x
+                return node
+
+            def visit_Lambda(self, node):
+                return node
+        return _S().visit(copy.deepcopy(e))
+    ea, eb = expand(a), expand(b)
+    if pure(ea) and pure(eb):
+        return pf.nsrc(ea) == pf.nsrc(eb)
     return None
 
 
@@ -99,26 +225,21 @@ def _service(ctx: Ctx) -> None:
     for name in ('copy_input', 'copy_internal_output', 'copy_external_output'):
         ctx.need(name in defs and len(defs[name].args.args) == 1, f'{where}: nested {name}(r) not found')
 
-    def input_branch(f: pf.FuncDef) -> Optional[ast.If]:
-        r = f.args.args[0].arg
-        for st in f.body:
-            if isinstance(st, ast.If) and isinstance(st.test, ast.Call) and pf.dotted(st.test.func) == 'isinstance' and len(st.test.args) == 2 \
-                    and isinstance(st.test.args[0], ast.Name) and st.test.args[0].id == r and (pf.dotted(st.test.args[1]) or '').endswith('InputResourceFile'):
-                return st
-        return None
-
     # writer
     w = defs['copy_internal_output']
     wr = w.args.args[0].arg
-    w_src, w_dst = _pair(ctx, _single_return(ctx, w, f'{where}.copy_internal_output'), f'{where}.copy_internal_output')
+    w_ret, _ = _one_return(ctx, _classified_returns(ctx, w, f'{where}.copy_internal_output')['job'], f'{where}.copy_internal_output', 'a job resource')
+    w_src, w_dst = _pair(ctx, w_ret, f'{where}.copy_internal_output')
     w_local, w_remote = _get_path_arg(w_src, wr, w), _get_path_arg(w_dst, wr, w)
     ctx.need(w_local is not None and w_remote is not None, f'{where}.copy_internal_output: pair is not (r._get_path(<dir>), r._get_path(<dir>))')
     # reader
     rd = defs['copy_input']
     rr = rd.args.args[0].arg
-    ib = input_branch(rd)
-    ctx.need(ib is not None, f'{where}.copy_input: no isinstance(r, InputResourceFile) branch')
-    r_src, r_dst = _pair(ctx, _single_return(ctx, rd, f'{where}.copy_input', outside=ib), f'{where}.copy_input')
+    rcls = _classified_returns(ctx, rd, f'{where}.copy_input')
+    ctx.need(bool(rcls['input']) and bool(rcls['job']) and not any(a_ is b_ for a_, _ in rcls['input'] for b_, _ in rcls['job']),
+             f'{where}.copy_input: no isinstance(r, InputResourceFile) branch')
+    r_ret, _ = _one_return(ctx, rcls['job'], f'{where}.copy_input', 'a job resource')
+    r_src, r_dst = _pair(ctx, r_ret, f'{where}.copy_input')
     r_remote, r_local = _get_path_arg(r_src, rr, rd), _get_path_arg(r_dst, rr, rd)
     ctx.need(r_local is not None and r_remote is not None, f'{where}.copy_input: job-resource pair is not (r._get_path(<dir>), r._get_path(<dir>))')
     for v in {w_local, w_remote, r_local, r_remote}:
@@ -138,42 +259,65 @@ def _service(ctx: Ctx) -> None:
     # external outputs read the same local path
     x = defs['copy_external_output']
     xr = x.args.args[0].arg
-    xb = input_branch(x)
-    xret = _single_return(ctx, x, f'{where}.copy_external_output', outside=xb)
-    xv = xret.value
+    xret, _ = _one_return(ctx, _classified_returns(ctx, x, f'{where}.copy_external_output')['job'], f'{where}.copy_external_output', 'a job resource')
+    xv = pf.resolve_expr(x, xret.value) if xret.value is not None else None
     ctx.need(isinstance(xv, ast.ListComp) and isinstance(xv.elt, ast.Tuple) and len(xv.elt.elts) == 2 and len(xv.generators) == 1,
              f'{where}.copy_external_output: return is not a list comprehension of pairs')
     gen = xv.generators[0]  # type: ignore[union-attr]
     x_local = _get_path_arg(xv.elt.elts[0], xr, x)  # type: ignore[union-attr]
+    ctx.need(x_local is not None, f'{where}.copy_external_output: source `{pf.nsrc(xv.elt.elts[0])}` is not r._get_path(<dir>) (not analysed)')  # type: ignore[union-attr]
     dst_ok = isinstance(xv.elt.elts[1], ast.Name) and isinstance(gen.target, ast.Name) and xv.elt.elts[1].id == gen.target.id and _is_attr(gen.iter, xr, '_output_paths') and not gen.ifs  # type: ignore[union-attr]
+    ctx.need(isinstance(gen.target, ast.Name) and isinstance(gen.iter, ast.Attribute) and isinstance(gen.iter.value, ast.Name) and gen.iter.value.id == xr  # type: ignore[union-attr]
+             and isinstance(xv.elt.elts[1], ast.Name), f'{where}.copy_external_output: `{pf.nsrc(xv)[:100]}` not recognised')  # type: ignore[union-attr]
     ctx.check(x_local == local and dst_ok, 'R1', f'{where}::external output read from the local path',
               f'copy_external_output yields `{pf.nsrc(xv.elt)}` over `{pf.nsrc(gen.iter)}`; expected (r._get_path({local}), dest) for every dest in r._output_paths',  # type: ignore[union-attr]
               m.path, xret.lineno)
 
     # locally staged input: uploaded to the dest it is downloaded from
-    ups = [c for c in pf.calls_in(ib) if isinstance(c.func, ast.Attribute) and c.func.attr == 'append' and len(c.args) == 1 and isinstance(c.args[0], ast.Dict)]
+    ups = [c for c in pf.calls_in(rd) if isinstance(c.func, ast.Attribute) and c.func.attr == 'append' and len(c.args) == 1 and isinstance(pf.resolve_expr(rd, c.args[0]), ast.Dict)]
     ctx.need(len(ups) == 1, f'{where}.copy_input: transfer record not found')
-    inner = [st for st in ast.walk(ib) if isinstance(st, ast.If) and st is not ib and _inside(st, ups[0])]
-    ctx.need(len(inner) == 1, f'{where}.copy_input: the staging branch is not a single nested if')
-    stage = [st for st in ast.walk(inner[0]) if isinstance(st, ast.Return)]
-    ctx.need(len(stage) == 1, f'{where}.copy_input: staged-input return not found')
-    s_src, s_dst = _pair(ctx, stage[0], f'{where}.copy_input')
-    rec = {pf.const_str(k): v for k, v in zip(ups[0].args[0].keys, ups[0].args[0].values) if k is not None}  # type: ignore[union-attr]
+    UP = pf.cfg(rd).node_of(ups[0])
+    ctx.need(len(UP) == 1, f'{where}.copy_input: transfer record node')
+    staged = [(r_, p_) for r_, p_ in rcls['input'] if any(n is UP[0] for n in p_)]
+    direct = [(r_, p_) for r_, p_ in rcls['input'] if not any(n is UP[0] for n in p_)]
+    stage_ret, _ = _one_return(ctx, staged, f'{where}.copy_input', 'a locally staged input file')
+    s_src, s_dst = _pair(ctx, stage_ret, f'{where}.copy_input')
+    recd = pf.resolve_expr(rd, ups[0].args[0])
+    rec = {pf.const_str(k): v for k, v in zip(recd.keys, recd.values) if k is not None}  # type: ignore[union-attr]
     ctx.need('from' in rec and 'to' in rec, f'{where}.copy_input: transfer record has no from/to')
-    to_ok = pf.nsrc(rec['to']) == pf.nsrc(s_src) and _is_attr(rec['from'], rr, '_input_path') and not _is_attr(s_src, rr, '_input_path')
+    same_to = _same_value(rd, rec['to'], s_src)
+    from_x = facts.expand_locals_except(rd, rec['from'], stop={rr})
+    ssrc_x = facts.expand_locals_except(rd, s_src, stop={rr})
+    ctx.need(same_to is not None, f'{where}.copy_input: whether the upload target `{pf.nsrc(rec["to"])}` is the download source `{pf.nsrc(s_src)}` is not decided')
+    ctx.need(_is_attr(from_x, rr, '_input_path') or isinstance(from_x, (ast.Attribute, ast.Call, ast.Name)), f'{where}.copy_input: upload source `{pf.nsrc(rec["from"])}` not recognised')
+    to_ok = same_to and _is_attr(from_x, rr, '_input_path') and not _is_attr(ssrc_x, rr, '_input_path')
     st_local = _get_path_arg(s_dst, rr, rd)
+    ctx.need(st_local is not None, f'{where}.copy_input: download destination `{pf.nsrc(s_dst)}` of a staged input is not r._get_path(<dir>) (not analysed)')
     ctx.check(to_ok and st_local == local, 'R1', f'{where}.copy_input::staged input',
-              f'a local input file is uploaded `{pf.nsrc(ups[0].args[0])}` but the job downloads `{pf.nsrc(stage[0].value)}`: upload target and download source differ '
-              f'or the local side is not r._get_path({local})', m.path, stage[0].lineno)
-    lists = [pf.nsrc(c.func.value) for c in ups]  # type: ignore[union-attr]
-    flush = [c for c in pf.calls_in(fn) if pf.dotted(c.func) == 'copy_from_dict' and any(k.arg == 'files' and pf.nsrc(k.value) == lists[0] for k in c.keywords)]
-    ctx.check(len(flush) == 1, 'R1', f'{where}::staged inputs are uploaded', f'`{lists[0]}` is never passed to copy_from_dict(files=...): staged inputs are not uploaded', m.path, fn.lineno)
+              f'a local input file is uploaded `{pf.nsrc(recd)}` but the job downloads `{pf.nsrc(stage_ret.value)}`: upload target and download source differ '
+              f'or the local side is not r._get_path({local})', m.path, stage_ret.lineno)
+    ctx.need(isinstance(ups[0].func.value, ast.Name), f'{where}.copy_input: the transfer record is not appended to a local list')  # type: ignore[attr-defined]
+    tlist = ups[0].func.value.id  # type: ignore[attr-defined]
+    reads = [c for c in pf.calls_in(fn, into_nested_defs=True) if c is not ups[0]
+             and any(isinstance(a_, ast.Name) and a_.id == tlist for a_ in list(c.args) + [k.value for k in c.keywords])]
+    flush = [c for c in reads if (pf.dotted(c.func) or '').split('.')[-1] == 'copy_from_dict']
+    other_uses = [n for n in pf.walk_shallow(fn, into_nested_defs=True) if isinstance(n, ast.Name) and n.id == tlist and isinstance(n.ctx, ast.Load) and n is not ups[0].func.value  # type: ignore[attr-defined]
+                  and not any(n is a_ for c in flush for a_ in list(c.args) + [k.value for k in c.keywords])]
+    # evidence for "never uploaded": the list is only ever appended to / tested; any other reader that is not copy_from_dict is not decided
+    par_fn = {c: p_ for p_ in ast.walk(fn) for c in ast.iter_child_nodes(p_)}
+    passive = all(isinstance(par_fn.get(n), (ast.If, ast.While, ast.BoolOp, ast.UnaryOp, ast.Compare, ast.Assert, ast.IfExp)) or
+                  (isinstance(par_fn.get(n), ast.Call) and pf.dotted(par_fn[n].func) in ('len', 'bool')) for n in other_uses)
+    ctx.need(bool(flush) or passive, f'{where}: `{tlist}` is read by `{pf.nsrc(par_fn.get(other_uses[0]))[:80] if other_uses else ""}` (not recognised as the upload)')
+    ctx.check(len(flush) >= 1, 'R1', f'{where}::staged inputs are uploaded', f'`{tlist}` is never passed to copy_from_dict(files=...): staged inputs are not uploaded', m.path, fn.lineno)
     # other input-file branch: remote inputs are read in place to the local path
-    in_rets = [st for st in ast.walk(ib) if isinstance(st, ast.Return) and st is not stage[0]]
-    ctx.need(len(in_rets) == 1, f'{where}.copy_input: expected one return for remote input files')
-    a, b = _pair(ctx, in_rets[0], f'{where}.copy_input')
-    ctx.check(_is_attr(a, rr, '_input_path') and _get_path_arg(b, rr) == local, 'R1', f'{where}.copy_input::remote input',
-              f'`{pf.nsrc(in_rets[0])}` is not (r._input_path, r._get_path({local}))', m.path, in_rets[0].lineno)
+    in_ret, _ = _one_return(ctx, direct, f'{where}.copy_input', 'a remote input file')
+    a, b = _pair(ctx, in_ret, f'{where}.copy_input')
+    a_x = facts.expand_locals_except(rd, a, stop={rr})
+    b_dir = _get_path_arg(b, rr, rd)
+    ctx.need(b_dir is not None and (_is_attr(a_x, rr, '_input_path') or _get_path_arg(a, rr, rd) is not None or (isinstance(a_x, ast.Attribute) and isinstance(a_x.value, ast.Name))),
+             f'{where}.copy_input: `{pf.nsrc(in_ret)}` not recognised')
+    ctx.check(_is_attr(a_x, rr, '_input_path') and b_dir == local, 'R1', f'{where}.copy_input::remote input',
+              f'`{pf.nsrc(in_ret)}` is not (r._input_path, r._get_path({local}))', m.path, in_ret.lineno)
 
     # ---- the job loop
     creates = [c for c in pf.calls_in(fn) if isinstance(c.func, ast.Attribute) and c.func.attr == 'create_job' and any(k.arg == 'parents' for k in c.keywords)
@@ -214,37 +358,67 @@ def _service(ctx: Ctx) -> None:
             return e.values[0]
         return e
 
-    def flat_comp(e: ast.AST, attr: str, helper: str) -> bool:
-        """[x for r in <job>.<attr> for x in <helper>(r)]"""
-        if not (isinstance(e, ast.ListComp) and len(e.generators) == 2 and isinstance(e.elt, ast.Name)):
-            return False
-        g1, g2 = e.generators
-        return (not g1.ifs and not g2.ifs and isinstance(g1.target, ast.Name) and _is_attr(g1.iter, jv, attr)
-                and isinstance(g2.iter, ast.Call) and isinstance(g2.iter.func, ast.Name) and g2.iter.func.id == helper
-                and [pf.nsrc(a) for a in g2.iter.args] == [g1.target.id] and isinstance(g2.target, ast.Name) and g2.target.id == e.elt.id)
+    def inner_loop(st: ast.AST) -> Optional[ast.For]:
+        """The `for <r> in <job>.<attr>:` loop (directly in the job loop's straight-line code, unfiltered) that a statement is the body of."""
+        o = getattr(st, '_orig', st)
+        for lp in _stmts(loop):
+            if isinstance(lp, ast.For) and not lp.orelse and len(lp.body) == 1 and lp.body[0] is o and isinstance(lp.target, ast.Name) \
+                    and isinstance(lp.iter, ast.Attribute) and isinstance(lp.iter.value, ast.Name) and lp.iter.value.id == jv:
+                return lp
+        return None
 
     def defs_of(name: str) -> List[ast.stmt]:
         ds = body_defs.get(name, [])
         for st in ds:
-            n = [x for x in g.nodes if x.ast is getattr(st, '_orig', st)]
+            anchor = inner_loop(st) or getattr(st, '_orig', st)
+            n = [x for x in g.nodes if x.ast is anchor]
             ctx.need(len(n) == 1 and g.dominated_by(CJ[0], lambda y, n0=n[0]: y is n0), f'{where}: definition `{pf.nsrc(st)}` does not dominate create_job')
         return ds
+
+    def flat_sources(ds: List[ast.stmt]) -> Optional[List[Tuple[str, str]]]:
+        """The (attribute of the job, copy helper) pairs a file list is the concatenation of - comprehension, `+=` / extend of a comprehension, or a plain loop
+        `for r in job.<attr>: lst.extend(helper(r))` / `lst += helper(r)`; None when a definition is not one of these."""
+        out: List[Tuple[str, str]] = []
+        for d in ds:
+            v = d.value if isinstance(d, (ast.Assign, ast.AugAssign, ast.AnnAssign)) else None
+            if v is None or (isinstance(d, ast.AugAssign) and not isinstance(d.op, ast.Add)):
+                return None
+            if isinstance(d, (ast.Assign, ast.AnnAssign)) and ((isinstance(v, ast.List) and not v.elts) or pf.nsrc(v) == 'list()'):
+                out = []      # (re-)initialised: whatever was collected before is gone
+                continue
+            if isinstance(v, ast.ListComp) and len(v.generators) == 2 and isinstance(v.elt, ast.Name):
+                g1, g2 = v.generators
+                if not g1.ifs and not g2.ifs and isinstance(g1.target, ast.Name) and isinstance(g1.iter, ast.Attribute) and isinstance(g1.iter.value, ast.Name) and g1.iter.value.id == jv \
+                        and isinstance(g2.iter, ast.Call) and isinstance(g2.iter.func, ast.Name) and [pf.nsrc(a_) for a_ in g2.iter.args] == [g1.target.id] and not g2.iter.keywords \
+                        and isinstance(g2.target, ast.Name) and g2.target.id == v.elt.id:
+                    if isinstance(d, (ast.Assign, ast.AnnAssign)):
+                        out = []      # a plain assignment replaces what was collected before
+                    out.append((g1.iter.attr, g2.iter.func.id))
+                    continue
+                return None
+            lp = inner_loop(d)
+            if lp is not None and isinstance(d, ast.AugAssign) and isinstance(v, ast.Call) and isinstance(v.func, ast.Name) and [pf.nsrc(a_) for a_ in v.args] == [lp.target.id] and not v.keywords:  # type: ignore[attr-defined]
+                out.append((lp.iter.attr, v.func.id))  # type: ignore[attr-defined]
+                continue
+            return None
+        return out
 
     # inputs
     iv = unwrap_opt(kw['input_files'])
     ctx.need(isinstance(iv, ast.Name), f'{where}: input_files=`{pf.nsrc(kw["input_files"])}` not recognised')
     ds = defs_of(iv.id)  # type: ignore[union-attr]
-    ok = len(ds) == 1 and isinstance(ds[0], ast.Assign) and flat_comp(ds[0].value, '_inputs', 'copy_input')
-    ctx.check(ok, 'R2', f'{where}::input_files', f'input_files is built by {[pf.nsrc(d) for d in ds]}; expected copy_input(r) for every r in {jv}._inputs: '
-              f'a consumed resource is not downloaded into the job', m.path, cj.lineno)
+    srcs_in = flat_sources(ds)
+    ctx.need(srcs_in is not None, f'{where}: input_files is built by {[pf.nsrc(d)[:80] for d in ds]} (not recognised)')
+    ctx.check(srcs_in == [('_inputs', 'copy_input')], 'R2', f'{where}::input_files', f'input_files is built by {[pf.nsrc(d) for d in ds]} = {srcs_in}; expected copy_input(r) for every r in '
+              f'{jv}._inputs: a consumed resource is not downloaded into the job', m.path, cj.lineno)
     # outputs
     ov = unwrap_opt(kw.get('output_files', ast.Constant(None)))
     ctx.need(isinstance(ov, ast.Name), f'{where}: output_files not recognised')
     ds = defs_of(ov.id)  # type: ignore[union-attr]
-    seen_int = [d for d in ds if isinstance(d, ast.Assign) and flat_comp(d.value, '_internal_outputs', 'copy_internal_output')]
-    seen_ext = [d for d in ds if isinstance(d, ast.AugAssign) and isinstance(d.op, ast.Add) and flat_comp(d.value, '_external_outputs', 'copy_external_output')]
-    ctx.check(len(ds) == 2 and len(seen_int) == 1 and len(seen_ext) == 1 and ds[0] is seen_int[0], 'R2', f'{where}::output_files',
-              f'output_files is built by {[pf.nsrc(d) for d in ds]}; expected copy_internal_output over {jv}._internal_outputs then += copy_external_output over '
+    srcs_out = flat_sources(ds)
+    ctx.need(srcs_out is not None, f'{where}: output_files is built by {[pf.nsrc(d)[:80] for d in ds]} (not recognised)')
+    ctx.check(sorted(srcs_out) == [('_external_outputs', 'copy_external_output'), ('_internal_outputs', 'copy_internal_output')], 'R2', f'{where}::output_files',  # type: ignore[arg-type]
+              f'output_files is built by {[pf.nsrc(d) for d in ds]} = {srcs_out}; expected copy_internal_output over {jv}._internal_outputs and copy_external_output over '
               f'{jv}._external_outputs: a resource another job reads is never uploaded', m.path, cj.lineno)
     # parents
     pe = kw['parents']
@@ -256,9 +430,9 @@ def _service(ctx: Ctx) -> None:
             ctx.need(len(d) == 1 and isinstance(d[0], ast.Assign), f'{where}: `{cur.id}` has several definitions')
             cur = d[0].value  # type: ignore[attr-defined]
             continue
-        if isinstance(cur, ast.ListComp) and len(cur.generators) == 1 and not cur.generators[0].ifs and isinstance(cur.generators[0].target, ast.Name) \
-                and isinstance(cur.elt, ast.Attribute) and isinstance(cur.elt.value, ast.Name) and cur.elt.value.id == cur.generators[0].target.id:
-            chain.append(cur.elt.attr)
+        if isinstance(cur, (ast.ListComp, ast.GeneratorExp)) and len(cur.generators) == 1 and not cur.generators[0].ifs and isinstance(cur.generators[0].target, ast.Name) \
+                and isinstance(cur.elt, ast.Attribute) and (pf.dotted(cur.elt) or '').split('.')[0] == cur.generators[0].target.id:
+            chain += list(reversed((pf.dotted(cur.elt) or '').split('.')[1:]))     # `j._client_job._async_job`: outermost projection first
             cur = cur.generators[0].iter
             continue
         if chain and isinstance(cur, ast.Call) and isinstance(cur.func, ast.Name) and cur.func.id in ('sorted', 'list', 'tuple') and len(cur.args) == 1 \
@@ -275,17 +449,31 @@ def _service(ctx: Ctx) -> None:
     ctx.check(base_ok and chain == ['_async_job', '_client_job'], 'R2', f'{where}::parents',
               f'parents resolves to the projection {list(reversed(chain))} of `{pf.nsrc(cur)}`; expected `._client_job._async_job` of every job in {jv}._dependencies: '
               f'the consumer is not submitted as a child of the producer and may start before the upload{reduced}', m.path, cj.lineno)
-    res = [t.id for st in _stmts(loop) if isinstance(st, ast.Assign) and st.value is cj for t in st.targets if isinstance(t, ast.Name)]
+    res = [t.id for st in _stmts(loop) if isinstance(st, (ast.Assign, ast.AnnAssign)) and st.value is cj
+           for t in (st.targets if isinstance(st, ast.Assign) else [st.target]) if isinstance(t, ast.Name)]
     ctx.need(len(res) == 1, f'{where}: create_job result is not bound to a name')
     marks = [st for st in _stmts(loop) if isinstance(st, ast.Assign) and len(st.targets) == 1 and _is_attr(st.targets[0], jv, '_client_job')]
-    mk_ok = len(marks) == 1 and isinstance(marks[0].value, ast.Call) and [pf.nsrc(a) for a in marks[0].value.args] == [res[0]] \
-        and (pf.dotted(marks[0].value.func) or '').endswith('Job')
-    if mk_ok:
-        MK = _node(g, marks[0], 'client job mark')
-        L = _node(g, loop, 'job loop')
-        # every iteration that created a job records it before the next iteration
-        p = g.path_avoiding(CJ[0], lambda n: n is L, lambda n: n is MK)
-        mk_ok = p is None
+    L = _node(g, loop, 'job loop')
+    if not marks:
+        # evidence for "never recorded": nothing after create_job could store it (no setattr, no call that receives both the job and the created job)
+        hidden = [c for c in pf.calls_in(loop) if (pf.dotted(c.func) == 'setattr' or
+                                                   {jv, res[0]} <= {a_.id for a_ in list(c.args) + [k.value for k in c.keywords] if isinstance(a_, ast.Name)} or
+                                                   (isinstance(c.func, ast.Attribute) and isinstance(c.func.value, ast.Name) and c.func.value.id == jv
+                                                    and any(isinstance(a_, ast.Name) and a_.id == res[0] for a_ in list(c.args) + [k.value for k in c.keywords])))]
+        ctx.need(not hidden, f'{where}: `{jv}._client_job` is not assigned in the loop, but `{pf.nsrc(hidden[0])[:80] if hidden else ""}` may record the created job (not analysed)')
+        mk_ok = False
+    else:
+        ctx.need(len(marks) == 1, f'{where}: `{jv}._client_job` is assigned {len(marks)} times in the job loop')
+        mv = facts.expand_locals_except(fn, marks[0].value, stop={res[0], jv}, depth=3)
+        wraps = isinstance(mv, ast.Call) and len(mv.args) + len(mv.keywords) == 1 and pf.nsrc(mv.args[0] if mv.args else mv.keywords[0].value) == res[0]
+        ctx.need(wraps or (isinstance(mv, ast.Call) and res[0] not in pf.names_in(mv)) or isinstance(mv, (ast.Constant, ast.Name, ast.Attribute)),
+                 f'{where}: `{pf.nsrc(marks[0])}` not recognised')
+        mk_ok = bool(wraps)
+        if mk_ok:
+            MK = _node(g, marks[0], 'client job mark')
+            # every iteration that created a job records it before the next iteration
+            p = g.path_avoiding(CJ[0], lambda n: n is L, lambda n: n is MK)
+            mk_ok = p is None
     ctx.check(mk_ok, 'R2', f'{where}::{jv}._client_job = Job(<created>)', f'the created job is not recorded in `{jv}._client_job` before the next job is built '
               f'({[pf.nsrc(x) for x in marks]}): children cannot name it as a parent', m.path, cj.lineno)
 
@@ -300,7 +488,11 @@ def _service(ctx: Ctx) -> None:
     ctx.need(all(s == sigs[0] for s in sigs) and len(sigs[0]) == 2, f'{FJ}: _compile signatures differ: {sigs}')
     role = {'local_tmpdir': local, 'remote_tmpdir': remote}
     ctx.need(set(sigs[0]) == set(role), f'{FJ}: _compile parameters are {sigs[0]}, expected local_tmpdir/remote_tmpdir')
-    got = [pf.nsrc(a) for a in comp[0].args[:2]]
+    cb = _bind_call(mj.func('Job._compile'), comp[0], True)
+    ctx.need(cb is not None and all(p_ in cb for p_ in sigs[0]), f'{where}: arguments of `{pf.nsrc(comp[0])[:100]}` do not bind to {sigs[0]}')
+    cfn = m.enclosing_func(comp[0]) or fn
+    got = [pf.nsrc(facts.expand_locals_except(cfn, cb[p_], stop={local, remote}, depth=3)) for p_ in sigs[0]]  # type: ignore[index]
+    ctx.need(all(x in (local, remote) for x in got), f'{where}: `{pf.nsrc(comp[0])[:100]}` passes {got} for {sigs[0]} (not analysed)')
     ctx.check(got == [role[p] for p in sigs[0]], 'R1', f'{where}::_compile(local, remote)',
               f'`{pf.nsrc(comp[0])}` passes {got} for parameters {sigs[0]}: code and argument files are written under one directory and read from the other',
               m.path, comp[0].lineno)
@@ -435,6 +627,12 @@ def _tmpdir_env(ctx: Ctx, m: pf.Module, fn: pf.FuncDef, where: str, nested: Dict
                     out.append((kind, k2, v2))
         return out
 
+    # literal keys that were moved to a module / class level constant are read as the literal
+    consts = {k: v for k, v in facts.literal_constants(m, 'ServiceBackend').items() if isinstance(v.value, str)}
+    locals_ = set(pf.assignments(fn))
+    if consts:
+        ev = facts.subst_constants(ev, consts, locals_)  # type: ignore[assignment]
+        before = [facts.subst_constants(st, consts, locals_) for st in before]  # type: ignore[misc]
     try:
         if isinstance(ev, ast.Name):
             name = ev.id
@@ -479,6 +677,9 @@ def _tmpdir_env(ctx: Ctx, m: pf.Module, fn: pf.FuncDef, where: str, nested: Dict
     if value is not None and not (isinstance(value, ast.Name) and value.id == local):
         value = facts.expand_locals_except(fn, value, stop={local, jv}, depth=2)   # a local alias of the directory
     ok = verdict == 'fixed' and isinstance(value, ast.Name) and value.id == local
+    # evidence of a wrong binding: another variable, a literal, or a string built from something; any other expression is not decided
+    ctx.need(ok or verdict != 'fixed' or isinstance(value, (ast.Name, ast.Constant, ast.JoinedStr, ast.BinOp, ast.Attribute)),
+             f'{where}: {TMPVAR} is bound to `{pf.nsrc(value) if value is not None else None}` (not analysed)')
     ctx.check(ok, 'R1', cons,
               f"env is built as {shown}: " + (f'{TMPVAR} is never bound' if verdict == 'missing' else f'{TMPVAR} is bound to `{pf.nsrc(value)}`') +  # type: ignore[arg-type]
               f"; {base}; {TMPVAR} must be `{local}` and must not be overridable by job._env", m.path, cj.lineno, detail={'entries': shown})
@@ -544,24 +745,34 @@ def _get_paths(ctx: Ctx) -> None:
                 dparam = st.args.args[1].arg
                 rets = [s for s in _stmts(st) if isinstance(s, ast.Return)]
                 ctx.need(len(rets) == 1 and rets[0].value is not None, f'{where}: expected one return')
-                env = {k: v[0] for k, v in pf.assignments(st).items() if len(v) == 1 and isinstance(v[0], ast.expr)}
-                parts = _parts(rets[0].value)
+                ctx.need(len(pf.assignments(st).get(dparam, [])) == 1, f'{where}: the parameter `{dparam}` is re-assigned')
+                # every definition of a local counts (a local assigned in both branches of an if), helpers that are one expression are seen through
+                env = {k: [x for x in v if isinstance(x, ast.expr)] for k, v in pf.assignments(st).items() if k != dparam}
+                rv_ = facts.inline_expr_calls(m, facts.expand_locals_except(st, rets[0].value, stop={dparam}), cls=cls.name)
+                rv_ = facts.expand_locals_except(st, rv_, stop={dparam})
+                parts = _parts(rv_)
                 ctx.need(bool(parts), f'{where}: empty path')
                 head_exact = parts[0] == ('expr', dparam)
                 mentions = 0
                 for i, (kind, txt) in enumerate(parts):
                     if kind == 'expr' and not (i == 0 and head_exact):
                         e = ast.parse(txt, mode='eval').body
-                        names = pf.names_in(e)
-                        for nm in list(names):
-                            if nm in env:
-                                names |= pf.names_in(env[nm])
+                        names = set(pf.names_in(e))
+                        for _round in range(3):
+                            for nm in list(names):
+                                for dv in env.get(nm, []):
+                                    names |= pf.names_in(dv)
                         if dparam in names:
                             ctx.need(i != 0, f'{where}: path starts with a function of `{dparam}` (`{txt}`), not with `{dparam}` itself')
                             mentions += 1
+                        ctx.need(not any(isinstance(x, ast.Call) and (dparam in pf.names_in(x)) for x in ast.walk(e)) or i != 0, f'{where}: `{txt}` not analysed')
+                ctx.need(head_exact or parts[0][0] == 'lit' or pf.dotted(ast.parse(parts[0][1], mode='eval').body) is not None,
+                         f'{where}: the head `{parts[0][1]}` of the path is not recognised')
                 ctx.check(head_exact and mentions == 0, 'R1', f'{where}::directory-prefixed',
                           f'`{pf.nsrc(rets[0])}` is not `{dparam} + <suffix independent of {dparam}>`: the path a command refers to '
                           f"('${{BATCH_TMPDIR}}' + _get_path('')) differs from the path files are copied to (_get_path(local_tmpdir))", m.path, rets[0].lineno)
+                if dparam != 'directory':
+                    parts = [(k_, 'directory') if (k_, t_) == ('expr', dparam) else (k_, t_) for k_, t_ in parts]     # the parameter's name is not part of the template
                 templates[cls.name] = parts
     for need in ('InputResourceFile', 'JobResourceFile', 'ResourceGroup', 'PythonResult'):
         ctx.need(need in templates, f'{FR}: {need}._get_path not found')
@@ -569,6 +780,7 @@ def _get_paths(ctx: Ctx) -> None:
     want = [('expr', 'directory'), ('lit', '/'), ('expr', 'self._source._dirname'), ('lit', '/'), ('expr', 'self._value')]
     for name, t in (('JobResourceFile', j), ('PythonResult', p)):
         exprs = [x for k, x in t if k == 'expr']
+        ctx.need(all(pf.dotted(ast.parse(x, mode='eval').body) is not None for x in exprs), f'{FR}::{name}._get_path: the path template {t} contains an expression that is not analysed')
         ctx.check('self._source._dirname' in exprs and 'self._value' in exprs and t[-1] == ('expr', 'self._value'), 'R4', f'{FR}::{name}._get_path::(job directory, value)',
                   f'the path template {t} is not <dir>/<producing job directory>/<value>: resources of different jobs or different names can share a path', m.path, 0,
                   detail={'template': t, 'canonical': t == want})
@@ -621,9 +833,11 @@ def _recording(ctx: Ctx) -> None:
 
 
 def _interpolation(ctx: Ctx) -> None:
-    m = pf.load(FJ)
+    m0 = pf.load(FJ)
+    site = RecordingSite(ctx, m0, 'Job._interpolate_command.handler')     # the callback by name or by role, statement helpers inlined
+    m = site.m
     outer = m.func('Job._interpolate_command')
-    h = m.func('Job._interpolate_command.handler')
+    h = site.fn
     where = f'{FJ}::Job._interpolate_command'
     ctx.need(len(outer.args.args) >= 2 and len(h.args.args) == 1, f'{where}: parameters changed')
     cmd, mo = outer.args.args[1].arg, h.args.args[0].arg
@@ -633,10 +847,10 @@ def _interpolation(ctx: Ctx) -> None:
     rets = [st for st in _stmts(h) if isinstance(st, ast.Return)]
     ctx.need(len(rets) == 1 and rets[0].value is not None, f'{where}.handler: expected one return')
     rv = rets[0].value
-    site = RecordingSite(ctx, m, 'Job._interpolate_command.handler')
     R = site.R
     VARNAME = 'BATCH_TMPDIR'
     rvx = facts.inline_expr_calls(m, facts.expand_locals_except(h, rv, stop={R, mo}), cls='Job')
+    rvx = facts.subst_constants(rvx, {k: v for k, v in facts.literal_constants(m, 'Job').items() if isinstance(v.value, str)}, set(pf.assignments(h)) | set(pf.assignments(outer)))
     ps = _parts(rvx)
 
     def raw_path(e: ast.AST) -> bool:
@@ -744,67 +958,165 @@ def _interpolation(ctx: Ctx) -> None:
               f"(e.g. '${{BATCH_TMPDIR}}' + shlex.quote(...)): {verdict}", m.path, rets[0].lineno,
               detail={'path_state': pstate, 'transform': tr if isinstance(tr, str) else tr.table})  # type: ignore[union-attr]
     # lookup and unknown uid
-    rdef = pf.single_def(h, R)
-    ctx.need(isinstance(rdef, ast.Call) and isinstance(rdef.func, ast.Attribute) and rdef.func.attr == 'get' and pf.nsrc(rdef.func.value) == 'self._batch._resource_map'
-             and len(rdef.args) == 1, f'{where}.handler: `{R}` is not looked up with self._batch._resource_map.get(...)')
-    key = pf.resolve_expr(h, rdef.args[0])  # type: ignore[union-attr]
-    ctx.check(isinstance(key, ast.Call) and pf.nsrc(key) == f'{mo}.group()', 'R3', f'{where}.handler::lookup key is the matched text',
+    rdef0 = pf.single_def(h, R)
+    ctx.need(isinstance(rdef0, ast.expr), f'{where}.handler: `{R}` is not bound once')
+    rdef = facts.expand_locals_except(h, rdef0, stop={mo}, depth=3)  # type: ignore[arg-type]
+    MAP = 'self._batch._resource_map'
+    by_get = isinstance(rdef, ast.Call) and isinstance(rdef.func, ast.Attribute) and rdef.func.attr == 'get' and pf.nsrc(rdef.func.value) == MAP and len(rdef.args) == 1 and not rdef.keywords
+    by_index = isinstance(rdef, ast.Subscript) and pf.nsrc(rdef.value) == MAP
+    ctx.need(by_get or by_index, f'{where}.handler: `{R}` is not looked up with {MAP}.get(...) / {MAP}[...]')
+    key = rdef.args[0] if by_get else rdef.slice  # type: ignore[union-attr]
+    ctx.need(isinstance(key, (ast.Call, ast.Subscript, ast.Name, ast.Attribute)), f'{where}.handler: lookup key `{pf.nsrc(key)}` not recognised')
+    ctx.check(pf.nsrc(key) in (f'{mo}.group()', f'{mo}.group(0)', f'{mo}[0]'), 'R3', f'{where}.handler::lookup key is the matched text',
               f'the resource is looked up under `{pf.nsrc(key)}`, not under the matched uid `{mo}.group()`', m.path, h.lineno)
-    none_tests = [n for n in g.nodes if n.kind == 'test' and isinstance(n.ast, ast.Compare) and len(n.ast.ops) == 1 and pf.nsrc(n.ast.left) == R
-                  and isinstance(n.ast.comparators[0], ast.Constant) and n.ast.comparators[0].value is None and isinstance(n.ast.ops[0], (ast.Is, ast.IsNot, ast.Eq, ast.NotEq))]
     RET = _node(g, rets[0], 'return')
-    if not none_tests:
-        ctx.bad('R3', f'{where}.handler::unknown uid raises', f'`{R}` (None for an unknown uid) is never tested: a reference to a resource of another batch is '
-                f'substituted by an AttributeError/garbage instead of being rejected', m.path, h.lineno)
+    ucons = f'{where}.handler::unknown uid raises'
+    if by_index:
+        ctx.ok('R3', ucons, {'by': 'subscript lookup: an unknown uid raises KeyError'})
     else:
-        ctx.need(len(none_tests) == 1, f'{where}.handler: several None tests of `{R}`')
-        T = none_tests[0]
-        lab = 'T' if isinstance(T.ast.ops[0], (ast.Is, ast.Eq)) else 'F'  # type: ignore[attr-defined]
-        p = g.path_avoiding(T, lambda n: n is g.exit, lambda n: False, edge_ok=lambda a, b, l2: a is not T or l2 == lab)
-        dom = g.dominated_by(RET, lambda n: n is T)
-        ctx.check(p is None and dom, 'R3', f'{where}.handler::unknown uid raises',
-                  f'with `{R} is None` (unknown uid) the handler still returns a replacement instead of raising', m.path, T.lineno)
+        from rules.c17 import _expand_flags
+
+        def none_label(t: ast.AST) -> Optional[str]:
+            """label of the edge taken when R is None, for a test that is exactly about that"""
+            flip = False
+            while isinstance(t, ast.UnaryOp) and isinstance(t.op, ast.Not):
+                t, flip = t.operand, not flip
+            lab = None
+            if isinstance(t, ast.Name) and t.id == R:
+                lab = 'F'
+            elif isinstance(t, ast.Compare) and len(t.ops) == 1 and isinstance(t.ops[0], (ast.Is, ast.IsNot, ast.Eq, ast.NotEq)):
+                l_, r_ = t.left, t.comparators[0]
+                if (pf.nsrc(l_) == R and isinstance(r_, ast.Constant) and r_.value is None) or (pf.nsrc(r_) == R and isinstance(l_, ast.Constant) and l_.value is None):
+                    lab = 'T' if isinstance(t.ops[0], (ast.Is, ast.Eq)) else 'F'
+            if lab is None:
+                return None
+            return lab if not flip else ('F' if lab == 'T' else 'T')
+        none_tests = []
+        typed = []
+        for n in g.nodes:
+            if n.kind == 'test' and n.ast is not None:
+                e_ = _expand_flags(h, n.ast, {R})
+                lab = none_label(e_)
+                if lab is not None:
+                    none_tests.append((n, lab))
+                elif any(isinstance(x, ast.Call) and pf.dotted(x.func) in ('isinstance', 'bool') and x.args and pf.nsrc(x.args[0]) == R for x in ast.walk(e_)) \
+                        or any(none_label(x) is not None for x in ast.walk(e_) if isinstance(x, (ast.Compare, ast.UnaryOp))) \
+                        or (isinstance(e_, ast.BoolOp) and any(isinstance(x, ast.Name) and x.id == R for x in e_.values)):
+                    typed.append(n)      # the None-ness of the resource is tested inside a larger condition
+        ctx.need(not typed, f'{where}.handler: test `{pf.nsrc(typed[0].ast) if typed else ""}` of the looked-up resource not recognised')
+        asserts = [n for n in g.nodes if n.kind == 'stmt' and isinstance(n.ast, ast.Assert) and R in pf.names_in(n.ast.test)]
+        if not none_tests:
+            ctx.need(not asserts, f'{where}.handler: `{R}` is only tested by an assert (not analysed)')
+            ctx.bad('R3', ucons, f'`{R}` (None for an unknown uid) is never tested: a reference to a resource of another batch is '
+                    f'substituted by an AttributeError/garbage instead of being rejected', m.path, h.lineno)
+        else:
+            ctx.need(len(none_tests) == 1, f'{where}.handler: several None tests of `{R}`')
+            T, lab = none_tests[0]
+            p = g.path_avoiding(T, lambda n: n is g.exit, lambda n: False, edge_ok=lambda a, b, l2: a is not T or l2 == lab)
+            dom = g.dominated_by(RET, lambda n: n is T)
+            ctx.check(p is None and dom, 'R3', ucons,
+                      f'with `{R} is None` (unknown uid) the handler still returns a replacement instead of raising', m.path, T.lineno)
     # the substitution
     subs = [c for c in pf.calls_in(outer) if pf.dotted(c.func) == 're.sub']
-    ctx.need(len(subs) == 1 and len(subs[0].args) == 3, f'{where}: expected one re.sub(pattern, handler, command)')
+    ctx.need(len(subs) == 1 and not any(isinstance(a_, ast.Starred) for a_ in subs[0].args) and not any(k.arg is None for k in subs[0].keywords),
+             f'{where}: expected one re.sub(pattern, handler, command)')
     sub = subs[0]
-    ctx.check(isinstance(sub.args[1], ast.Name) and sub.args[1].id == h.name and isinstance(sub.args[2], ast.Name) and sub.args[2].id == cmd
-              and not any(k.arg == 'count' for k in sub.keywords), 'R3', f'{where}::re.sub(…, handler, {cmd})',
+    sb: Dict[str, ast.AST] = dict(zip(('pattern', 'repl', 'string', 'count', 'flags'), sub.args))
+    for k in sub.keywords:
+        ctx.need(k.arg in ('pattern', 'repl', 'string', 'count', 'flags') and k.arg not in sb, f'{where}: arguments of `{pf.nsrc(sub)[:80]}` do not bind')
+        sb[k.arg] = k.value  # type: ignore[index]
+    ctx.need(all(x in sb for x in ('pattern', 'repl', 'string')), f'{where}: expected one re.sub(pattern, handler, command)')
+    cb_ = pf.resolve_expr(outer, sb['repl'])
+    st_ = facts.expand_locals_except(outer, sb['string'], stop={cmd}, depth=3)
+    counted = 'count' in sb and not (isinstance(sb['count'], ast.Constant) and sb['count'].value == 0)
+    ctx.need(isinstance(cb_, ast.Name) and (isinstance(st_, ast.Name) or cmd in pf.names_in(st_)), f'{where}: `{pf.nsrc(sub)[:100]}` not recognised')
+    ctx.check(isinstance(cb_, ast.Name) and cb_.id == h.name and isinstance(st_, ast.Name) and st_.id == cmd and not counted, 'R3', f'{where}::re.sub(…, handler, {cmd})',
               f'`{pf.nsrc(sub)}` does not apply the handler to every match in the given command', m.path, sub.lineno)
-    pat = sub.args[0]
     env = {k: v[0] for k, v in pf.assignments(outer).items() if len(v) == 1 and isinstance(v[0], ast.expr)}
-    lists = [env[n] for n in pf.names_in(pat) if n in env and isinstance(env[n], ast.List)]
-    ctx.need(len(lists) == 1, f'{where}: pattern is not built from one list of patterns')
-    members = [pf.nsrc(e) for e in lists[0].elts]  # type: ignore[attr-defined]
+    list_names = {n for n, v in env.items() if isinstance(v, (ast.List, ast.Tuple))}
+    pat = facts.expand_locals_except(outer, sb['pattern'], stop=list_names, depth=4)
+    if isinstance(pat, ast.Call) and pf.dotted(pat.func) == 're.compile' and pat.args:
+        pat = pat.args[0]
+    alt = _alternation_of(pat)
+    ctx.need(alt is not None, f'{where}: pattern `{pf.nsrc(pat)[:100]}` is not the `(a)|(b)|…` alternation of a list')
+    if isinstance(alt, ast.Name) and alt.id in list_names:
+        alt = env[alt.id]
+    ctx.need(isinstance(alt, (ast.List, ast.Tuple)) and not any(isinstance(e, ast.Starred) for e in alt.elts), f'{where}: pattern is not built from one list of patterns')  # type: ignore[union-attr]
+    members = [pf.nsrc(e) for e in alt.elts]  # type: ignore[union-attr]
     missing = [x for x in ('ResourceFile._regex_pattern', 'ResourceGroup._regex_pattern', 'PythonResult._regex_pattern') if x not in members]
-    joined = isinstance(pat, ast.BinOp) and any(isinstance(c, ast.Call) and isinstance(c.func, ast.Attribute) and c.func.attr == 'join' and pf.const_str(c.func.value) == ')|('
-                                                for c in ast.walk(pat))
-    ctx.need(joined, f'{where}: pattern is not the `(a)|(b)|…` alternation of the list')
+    ctx.need(all(pf.dotted(e) is not None for e in alt.elts), f'{where}: the members {members} of the alternation are not all `<Class>._regex_pattern`')  # type: ignore[union-attr]
     ctx.check(not missing, 'R3', f'{where}::pattern covers every resource kind', f'{missing} is not in the alternation {members}: references to that kind of resource '
               f'are left in the command as raw uids', m.path, sub.lineno)
     oret = [st for st in _stmts(outer) if isinstance(st, ast.Return)]
-    ctx.need(len(oret) == 1, f'{where}: expected one return')
-    ctx.check(pf.resolve_expr(outer, oret[0].value) is sub, 'R3', f'{where}::returns the substituted command', f'`{pf.nsrc(oret[0])}` is not the result of re.sub',
+    ctx.need(len(oret) == 1 and oret[0].value is not None, f'{where}: expected one return')
+    rvo = pf.resolve_expr(outer, oret[0].value)  # type: ignore[arg-type]
+    ctx.need(rvo is sub or not any(x is sub for x in ast.walk(rvo)), f'{where}: `{pf.nsrc(oret[0])}` post-processes the result of re.sub (not analysed)')
+    ctx.check(rvo is sub, 'R3', f'{where}::returns the substituted command', f'`{pf.nsrc(oret[0])}` is not the result of re.sub',
               m.path, oret[0].lineno)
     # command() stores the interpolated text
     c = m.func('BashJob.command')
     prm = c.args.args[1].arg
-    apps = [x for x in pf.calls_in(c) if isinstance(x.func, ast.Attribute) and x.func.attr == 'append' and _is_attr(x.func.value, 'self', '_command')]
-    ctx.need(len(apps) == 1 and len(apps[0].args) == 1, f'{FJ}::BashJob.command: expected one self._command.append')
-    defs = pf.assignments(c).get(prm, [])
-    interp = [d for d in defs if isinstance(d, ast.Call) and pf.dotted(d.func) == 'self._interpolate_command' and [pf.nsrc(a) for a in d.args] == [prm]]
-    arg = apps[0].args[0]
-    ok = (isinstance(arg, ast.Name) and arg.id == prm and len(interp) == 1) or \
-         (isinstance(arg, ast.Call) and pf.dotted(arg.func) == 'self._interpolate_command') or \
-         (isinstance(arg, ast.Name) and isinstance(pf.single_def(c, arg.id), ast.Call) and pf.dotted(pf.single_def(c, arg.id).func) == 'self._interpolate_command')  # type: ignore[union-attr]
-    if ok and isinstance(arg, ast.Name) and arg.id == prm:
-        gc = pf.cfg(c)
-        AP = gc.node_of(apps[0])
-        IN = gc.node_of(interp[0])
-        ok = len(AP) == 1 and len(IN) == 1 and gc.dominated_by(AP[0], lambda n: n is IN[0])
-    ctx.check(ok, 'R3', f'{FJ}::BashJob.command::stores the interpolated command', f'`{pf.nsrc(apps[0])}` stores text that did not pass through _interpolate_command: '
+    apps = [x for x in pf.calls_in(c) if isinstance(x.func, ast.Attribute) and x.func.attr in ('append', 'extend') and _is_attr(x.func.value, 'self', '_command')]
+    ctx.need(len(apps) == 1 and len(apps[0].args) == 1 and apps[0].func.attr == 'append', f'{FJ}::BashJob.command: expected one self._command.append')  # type: ignore[attr-defined]
+    gc = pf.cfg(c)
+    AP = gc.node_of(apps[0])
+    ctx.need(len(AP) == 1, f'{FJ}::BashJob.command: node of the append')
+
+    def interpolated(e: ast.AST, at: pf.Node, depth: int = 3) -> Optional[bool]:
+        """Is the value of e at node `at` exactly the result of self._interpolate_command(..)?  None: not decided."""
+        if isinstance(e, ast.Call) and pf.dotted(e.func) == 'self._interpolate_command':
+            return True
+        if isinstance(e, ast.Name) and depth > 0:
+            ds, entry = facts.reaching_defs(gc, e.id, at)
+            vals: List[Optional[bool]] = [False] if entry else []
+            for d in ds:
+                a_ = d.ast
+                if d.kind == 'stmt' and isinstance(a_, (ast.Assign, ast.AnnAssign)) and a_.value is not None \
+                        and all(isinstance(t, ast.Name) for t in (a_.targets if isinstance(a_, ast.Assign) else [a_.target])):
+                    vals.append(interpolated(a_.value, d, depth - 1))
+                else:
+                    vals.append(None)
+            if vals and all(v is True for v in vals):
+                return True
+            if any(v is False for v in vals) and not any(v is None for v in vals):
+                return False
+            return None
+        if any(isinstance(x, ast.Call) and pf.dotted(x.func) == 'self._interpolate_command' for x in ast.walk(e)):
+            return None      # the interpolated text is post-processed
+        if isinstance(e, (ast.Name, ast.Constant, ast.JoinedStr, ast.BinOp)) or (isinstance(e, ast.Call) and isinstance(e.func, ast.Attribute) and isinstance(e.func.value, ast.Name)
+                                                                                 and e.func.attr in ('strip', 'rstrip', 'lstrip') and interpolated(e.func.value, at, depth - 1) is False):
+            return False
+        return None
+    iv_ = interpolated(apps[0].args[0], AP[0])
+    ctx.need(iv_ is not None, f'{FJ}::BashJob.command: whether `{pf.nsrc(apps[0])}` stores the result of _interpolate_command is not decided')
+    ctx.check(bool(iv_), 'R3', f'{FJ}::BashJob.command::stores the interpolated command', f'`{pf.nsrc(apps[0])}` stores text that did not pass through _interpolate_command: '
               f'resource uids reach the shell unreplaced and no inputs/dependencies are recorded', m.path, apps[0].lineno)
     ctx.unit('functions', 3)
+
+
+def _alternation_of(pat: ast.AST) -> Optional[ast.AST]:
+    """The list expression L of a pattern that is the alternation of the members of L:  '(' + ')|('.join(L) + ')',  '|'.join(f'({x})' for x in L),
+    '|'.join('(' + x + ')' for x in L),  '|'.join(L)."""
+    def join_call(e: ast.AST, sep: str) -> Optional[ast.AST]:
+        if isinstance(e, ast.Call) and isinstance(e.func, ast.Attribute) and e.func.attr == 'join' and pf.const_str(e.func.value) == sep and len(e.args) == 1 and not e.keywords:
+            return e.args[0]
+        return None
+    # '(' + ')|('.join(L) + ')'   (also as an f-string)
+    ps = _parts(pat)
+    if len(ps) == 3 and ps[0] == ('lit', '(') and ps[2] == ('lit', ')') and ps[1][0] == 'expr':
+        inner = join_call(ast.parse(ps[1][1], mode='eval').body, ')|(')
+        if inner is not None:
+            return inner
+    inner = join_call(pat, '|')
+    if inner is None:
+        return None
+    if isinstance(inner, (ast.GeneratorExp, ast.ListComp)) and len(inner.generators) == 1 and not inner.generators[0].ifs and isinstance(inner.generators[0].target, ast.Name):
+        v = inner.generators[0].target.id
+        eps = _parts(inner.elt)
+        if eps in ([('expr', v)], [('lit', '('), ('expr', v), ('lit', ')')], [('lit', '(?:'), ('expr', v), ('lit', ')')]):
+            return inner.generators[0].iter
+        return None
+    return inner
 
 
 # ------------------------------------------------------------------------------------------------
@@ -853,15 +1165,43 @@ def _uids(ctx: Ctx) -> None:
         g = pf.cfg(f)
         rets = [st for st in _stmts(f) if isinstance(st, ast.Return)]
         ctx.need(len(rets) == 1, f'{awhere}: expected one return')
-        val = pf.resolve_expr(f, rets[0].value)
-        shape = isinstance(val, ast.BinOp) and isinstance(val.op, ast.Add) and pf.nsrc(val.left) == f'{c0}._uid_prefix' and pf.nsrc(val.right) == f'str({c0}._counter)'
-        if cname == 'Batch':
-            shape = shape or (isinstance(val, ast.BinOp) and isinstance(val.op, ast.Add) and pf.nsrc(val.left).endswith('._uid_prefix') and 'counter' in pf.nsrc(val.right))
-        bumps = [st for st in _stmts(f) if isinstance(st, ast.AugAssign) and isinstance(st.op, ast.Add) and pf.nsrc(st.target).endswith('._counter')
-                 and isinstance(st.value, ast.Constant) and isinstance(st.value.value, int) and st.value.value >= 1]
+        val = facts.expand_locals_except(f, rets[0].value, stop={c0}) if rets[0].value is not None else None
+        ctx.need(val is not None, f'{awhere}: returns nothing')
+        # a local bound BEFORE the counter is bumped holds the old counter value: the uid is what the expression is at the point it was computed
+        vparts = _parts(val)
+        ctx.need(all(k == 'lit' or pf.dotted(ast.parse(x, mode='eval').body) is not None for k, x in vparts), f'{awhere}: uid expression `{pf.nsrc(val)}` not recognised')
+        shape = vparts == [('expr', f'{c0}._uid_prefix'), ('expr', f'{c0}._counter')] or \
+            (len(vparts) == 2 and vparts[0][0] == 'expr' and vparts[0][1].endswith('._uid_prefix') and vparts[1][0] == 'expr' and vparts[1][1].endswith('._counter')
+             and vparts[0][1].rsplit('.', 1)[0] == vparts[1][1].rsplit('.', 1)[0] and vparts[0][1].rsplit('.', 1)[0] in (c0, cname))
+
+        def bump_of(st: ast.stmt) -> Optional[bool]:
+            """True: the statement increments `<x>._counter` by a positive constant; False: it writes the counter otherwise; None: it does not write it."""
+            if isinstance(st, ast.AugAssign) and pf.nsrc(st.target).endswith('._counter'):
+                try:
+                    d_ = linform.lin(st.value)
+                except AnalysisError:
+                    return False
+                return isinstance(st.op, ast.Add) and d_.is_const() and d_.const >= 1
+            if isinstance(st, (ast.Assign, ast.AnnAssign)):
+                tgs = st.targets if isinstance(st, ast.Assign) else [st.target]
+                ct = [t for t in tgs if isinstance(t, ast.Attribute) and t.attr == '_counter']
+                if ct:
+                    if len(tgs) != 1 or st.value is None:
+                        return False
+                    try:
+                        d_ = linform.lin(st.value) - linform.sym(pf.nsrc(ct[0]))
+                    except AnalysisError:
+                        return False
+                    return d_.is_const() and d_.const >= 1
+            return None
+        writes_ = [(st, bump_of(st)) for st in _stmts(f)]
+        bumps = [st for st, b_ in writes_ if b_ is True]
+        odd = [st for st, b_ in writes_ if b_ is False] + [c_ for c_ in pf.calls_in(f) if pf.dotted(c_.func) == 'setattr' or (pf.dotted(c_.func) or '').split('.')[-1] in ('count', 'next', '__next__')]
         RET = _node(g, rets[0], 'return')
         bumped = bool(bumps) and g.dominated_by(RET, lambda n: any(n.ast is b for b in bumps))
         if cname in ('ResourceFile', 'ResourceGroup', 'PythonResult'):
+            ctx.need(bumped or not odd, f'{awhere}: `{pf.nsrc(odd[0])[:80] if odd else ""}` changes the counter in a way that is not analysed')
+            # the uid must be computed from the counter BEFORE this call's increment (a uid computed after it is still fresh; both are accepted), on every path
             ctx.check(shape and bumped, 'R4', f'{awhere}::fresh uid', f'returns `{pf.nsrc(val)}` '
                       + ('without incrementing the counter on every path: two resources get the same uid, the later one replaces the earlier in _resource_map and both '
                          'are substituted by the same path' if shape else 'which is not `_uid_prefix + str(_counter)`'), m.path, f.lineno)
@@ -890,16 +1230,24 @@ def _uids(ctx: Ctx) -> None:
         f = mr.func(f'{cname}.__str__')
         rets = [st for st in _stmts(f) if isinstance(st, ast.Return)]
         ctx.need(len(rets) == 1, f'{FR}::{cname}.__str__: expected one return')
-        ctx.check(_parts(rets[0].value) == [('expr', 'self._uid')], 'R4', f'{FR}::{cname}.__str__ is the uid',
+        sv = facts.expand_locals_except(f, rets[0].value, stop=()) if rets[0].value is not None else None
+        ctx.need(sv is not None, f'{FR}::{cname}.__str__: returns nothing')
+        sps = _parts(sv)
+        ctx.need(all(k == 'lit' or pf.dotted(ast.parse(x, mode='eval').body) is not None for k, x in sps), f'{FR}::{cname}.__str__: `{pf.nsrc(rets[0])}` not recognised')
+        ctx.check(sps == [('expr', f'{f.args.args[0].arg}._uid')], 'R4', f'{FR}::{cname}.__str__ is the uid',
                   f'`{pf.nsrc(rets[0])}`: an f-string command embeds something other than the uid the interpolation looks up', mr.path, rets[0].lineno)
     regs = 0
+    from engines import c17facts
     for qual in ('Batch._new_job_resource_file', 'Batch._new_input_resource_file', 'Batch._new_resource_group', 'Batch._new_python_result'):
-        f = mb.func(qual)
+        _mb2, f, _il = c17facts.inline_site(mb, qual)     # a `self._register(resource)` helper is seen through
         rets = [st for st in _stmts(f) if isinstance(st, ast.Return)]
         ctx.need(len(rets) == 1 and isinstance(rets[0].value, ast.Name), f'{FB}::{qual}: expected `return <name>`')
         rn = rets[0].value.id
         found = False
+        touched = False
         for st in _stmts(f):
+            if any(isinstance(x, ast.Attribute) and x.attr == '_resource_map' for x in ast.walk(st)):
+                touched = True
             if isinstance(st, ast.Assign) and len(st.targets) == 1 and isinstance(st.targets[0], ast.Subscript) and pf.nsrc(st.targets[0].value) == 'self._resource_map':
                 if pf.nsrc(st.targets[0].slice) == f'{rn}._uid' and pf.nsrc(st.value) == rn:
                     found = True
@@ -907,6 +1255,17 @@ def _uids(ctx: Ctx) -> None:
             if isinstance(c, ast.Call) and pf.dotted(c.func) == 'self._resource_map.update' and len(c.args) == 1 and isinstance(c.args[0], ast.Dict) \
                     and [(pf.nsrc(k), pf.nsrc(v)) for k, v in zip(c.args[0].keys, c.args[0].values)] == [(f'{rn}._uid', rn)]:
                 found = True
+            if isinstance(c, ast.Call) and pf.dotted(c.func) == 'self._resource_map.setdefault' and [pf.nsrc(a_) for a_ in c.args] == [f'{rn}._uid', rn]:
+                found = True
+        if not found:
+            # evidence for "not registered": the map is written under another key / with another value, or nothing in the function could register the resource
+            carriers = [c for c in pf.calls_in(f) if any(isinstance(a_, ast.Name) and a_.id == rn for a_ in list(c.args) + [k.value for k in c.keywords])
+                        and not (isinstance(c.func, ast.Attribute) and c.func.attr in ('add', 'append', '_add_input_path'))]
+            wrong = [st for st in _stmts(f) if isinstance(st, ast.Assign) and len(st.targets) == 1 and isinstance(st.targets[0], ast.Subscript)
+                     and pf.nsrc(st.targets[0].value) == 'self._resource_map' and rn in pf.names_in(st)]
+            ctx.need(bool(wrong) or (not touched and not carriers) or (touched and not carriers and not any(
+                isinstance(x, ast.Call) and pf.dotted(x.func) in ('self._resource_map.update', 'self._resource_map.setdefault') and rn in pf.names_in(x) for x in ast.walk(f))),
+                f'{FB}::{qual}: whether `{rn}` is stored in self._resource_map under its uid is not decided')
         ctx.check(found, 'R4', f'{FB}::{qual}::registered under its uid', f'the new resource `{rn}` is not stored as `self._resource_map[{rn}._uid] = {rn}`: '
                   f'its references in commands are reported as undefined or resolve to another resource', mb.path, f.lineno)
         regs += 1
@@ -925,6 +1284,9 @@ def _uids(ctx: Ctx) -> None:
         val_ok = any(k.arg == 'value' and pf.nsrc(k.value) == item for k in mk[0].keywords) or (len(mk[0].args) >= 2 and pf.nsrc(mk[0].args[1]) == item)
         stored = [st for st in _stmts(f) if isinstance(st, ast.Assign) and len(st.targets) == 1 and pf.nsrc(st.targets[0]) == f'self._resources[{item}]']
         ok = False
+        if not (len(guards) == 1 and stored):
+            # evidence only when the creation is plainly unconditional; another lookup idiom (.get / try / a flag) is not decided
+            ctx.need(not any(n.kind in ('test', 'except') for n in g.nodes), f'{where}: the lookup idiom guarding `{maker}` is not recognised')
         if len(guards) == 1 and stored:
             T = guards[0]
             present = 'F' if isinstance(T.ast.ops[0], ast.NotIn) else 'T'  # type: ignore[attr-defined]
